@@ -374,3 +374,19 @@ func sampleKeys(rnd *rand.Rand, keys [][]byte, n int) [][]byte {
 	}
 	return rs
 }
+
+// directedSets: small hand-made key sets around the empty key, 0xFF and suffix-free siblings.
+func directedSets() []keySet {
+	mk := func(keys ...string) keySet {
+		ks := keySet{Kind: "directed", Alpha: []byte{0x00, 'a', 0xFF}}
+		for _, k := range keys {
+			ks.Keys = append(ks.Keys, []byte(k))
+		}
+		return ks
+	}
+	return []keySet{
+		mk(""), mk("\xff"), mk("", "\xff"), mk("", "a", "\xff", "\xff\xff"), mk("", "a"), mk("a", "a\xff"), mk("a\xff", "a\xff\xff", "b"),
+		mk("\x00", "\x00\x00", ""), mk("ab", "ac", "ad", "b"), mk("host-0", "host-1", "host-2", "host-3", "host-10", "host-11"),
+		mk("\xff\xff", "\xff\xfe", "\xfe\xff", "\xfe"), mk("a", "ab", "abc", "abcd", "abcde", ""),
+	}
+}
